@@ -32,8 +32,12 @@ Pair(a, b) == {a, b}
 CallWhy(op, recv, new, changed, aliased) ==
   IF op \in InPlaceOps
     \* an in-place write is also visible in every object already known to share with the receiver
-    THEN (IF changed \subseteq ({recv} \cup {g \in live : Pair(recv, g) \in shares}) THEN "ok"
-          ELSE "in-place-operation-changed-another-object")
+    THEN (IF ~(changed \subseteq ({recv} \cup {g \in live : Pair(recv, g) \in shares}))
+            THEN "in-place-operation-changed-another-object"
+          \* ... and it may not make the receiver share storage with an operand or another live object
+          ELSE IF ~(aliased \subseteq ({recv} \cup {g \in live : Pair(recv, g) \in shares}))
+            THEN "in-place-operation-made-the-receiver-share-an-operand"
+          ELSE "ok")
   ELSE IF changed # {} THEN "operand-modified"
   ELSE IF op \in SharingOps THEN "ok"
   ELSE IF aliased # {} THEN "result-aliases-live-object"
